@@ -2,6 +2,7 @@
 from rules import tables as T
 from rules import chk as K
 from rules import filtering as FL
+from rules import operators as OP
 
 
 def run(ctx):
@@ -10,6 +11,10 @@ def run(ctx):
     ctx.run(T.tbl14_aggregate_merge_table)
     ctx.run(K.chk8_sum)
     ctx.run(FL.flw23_filter_exactly_once)
+    ctx.run(OP.nul3_sentinel_survives_casts)
+    ctx.run(OP.pan5_result_type_lattice_total)
+    ctx.run(OP.nul4_in_place_null_map_moves_write_both_outcomes)
+    ctx.run(OP.who5_in_place_operators)
     return ctx.finish(
         'Syntax-tree table rules: an aggregate keeps its kind from the SQL text (COUNT/SUM/MIN/MAX, '
         'AVG = SUM / COUNT) through the planner to the operator; each aggregator marker type accumulates '
